@@ -534,7 +534,7 @@ func streamC01(h *H) {
 	caps := c01Probe()
 	cwd, _ := os.Getwd()
 	defer os.Chdir(cwd)
-	n := h.N(26, 500)
+	n := h.N(20, 500)
 	for i := 0; i < n; i++ {
 		sub := "main"
 		switch {
